@@ -16,7 +16,7 @@ Level: exploration (TLC-generated cases from an explicit TLA+ data model; laws e
     matches an open known finding.  A row on which both real reading paths agree with each other but
     not with the reference reader is MODEL-DRIFT (a note).
 """
-import json, os, random, hashlib, threading, decimal, re, collections
+import json, os, random, hashlib, threading, decimal, re, collections, base64
 from vlib import core
 
 LEVEL = "exploration"
@@ -29,10 +29,10 @@ GROUPS = 4
 ALL_STYLES = ("std", "braced", "ws", "parens", "bare")
 
 
-def plan(tier, keys):
+def plan(tier, mk):
     """generation jobs: battery types, Scope, MaxMut, MutDepth, MaxFrames (documents in a row on one reused decoder), styles, sigmas"""
-    reuse = reuse_keys()
-    base = [k for k in keys if k not in reuse]
+    reuse, pos = mk["reuse"], mk["pos"]
+    base = [k for k in mk["all"] if k not in reuse and k not in pos]
     jobs = []
     if tier == "quick":
         for g in range(GROUPS):      # interleaved so that the heavy types are spread over the groups
@@ -41,11 +41,17 @@ def plan(tier, keys):
         for g in range(GROUPS):
             jobs.append(dict(name="reuse%d" % g, keys=reuse[g::GROUPS], scope=0, max_mut=1, mut_depth=1, frames=2,
                              styles=("std", "braced", "ws"), sigmas=1))
+        # every primitive kind in every structural position: boundary values sampled from the pools per document
+        for g in range(GROUPS):
+            jobs.append(dict(name="pos%d" % g, keys=pos[g::GROUPS], scope=0, max_mut=1, mut_depth=1, frames=1,
+                             styles=("std", "ws"), sigmas=1))
         return jobs
     for g in range(GROUPS):
         jobs.append(dict(name="gen%d" % g, keys=base[g::GROUPS], scope=1, max_mut=1, mut_depth=3, frames=2, styles=ALL_STYLES, sigmas=2))
     for g in range(GROUPS):
         jobs.append(dict(name="reuse%d" % g, keys=reuse[g::GROUPS], scope=0, max_mut=1, mut_depth=3, frames=3, styles=ALL_STYLES, sigmas=1))
+    for g in range(GROUPS):
+        jobs.append(dict(name="pos%d" % g, keys=pos[g::GROUPS], scope=0, max_mut=1, mut_depth=2, frames=2, styles=("std", "braced", "ws"), sigmas=4))
     # second-order mutants (two operators in a row), except for the types with model-value fields (too many)
     two = [k for k in base if k not in ("WithValue", "BodyValue", "HdrValue", "ModelVal", "VecNest", "Coll")]
     n2 = 2 * GROUPS
@@ -58,14 +64,26 @@ CHUNK = 150000
 
 # ----------------------------------------------------------------------------- concretisation pools
 
+B64 = bytes(range(256))
 POOLS = {
-    "i": [0, 1, 7, 42, 2147483647, 65535],
-    "n": [-1, -2147483648, -17],
-    "g": [4294967296, 9223372036854775807, 1099511627776],
-    "f": [0.5, -2.25, 1e-7, 123456.789],
+    # 0 .. i32::MAX: every MessagePack width (fixint / 8 / 16 / 32 bit)
+    "i": [0, 1, 127, 128, 255, 256, 65535, 65536, 2147483647, 42],
+    "n": [-1, -32, -33, -128, -129, -32768, -32769, -2147483648],
+    "g": [4294967296, 9223372036854775807, 1099511627776],            # > u32::MAX, fits i64 (64 bit width)
+    "h": [2147483648, 4294967295],                                     # (i32::MAX, u32::MAX]
+    "G": [9223372036854775808, 18446744073709551615],                  # (i64::MAX, u64::MAX]
+    "N": [-2147483649, -9223372036854775808],                          # [i64::MIN, i32::MIN)
+    "B": [18446744073709551616, 10 ** 30, 2 ** 200],                   # beyond u64: big integers (MessagePack ext)
+    "M": [-9223372036854775809, -(10 ** 30), -(2 ** 200)],
+    "T": [0, 1000000, 1700000000000000, 1700000000123456, -1000000, 999999, -1],   # timestamps in micro-seconds
+    "z": [0, 1, 999999999],                                            # nano-seconds
+    "f": [0.5, -2.25, 1e-7, 123456.789, 1.5, 0.1, 3.4028234663852886e38, 1.7976931348623157e308, 5e-324, -0.0],
     "b": [True, False],
-    "s": ["pooled", "hello world", "", "true", "@at", "é ñ", "q\"uo\\te", "line\nbreak", "1x", "-", "k v"],
+    "s": ["pooled", "hello world", "", "true", "@at", "é ñ", "q\"uo\\te", "line\nbreak", "1x", "-", "k v",
+          "a" * 31, "b" * 32, "c" * 255, "d" * 256],                     # (str width boundaries 31/32, 255/256)
+    "d": [b"", b"\x00", B64 + bytes(44), B64[:255], B64, B64[:31], B64[:32]],        # blobs: empty, 1 byte, 300 bytes, bin8/bin16
 }
+INT_CLASSES = ("i", "n", "g", "h", "G", "N", "B", "M", "T", "z")
 
 
 class Sigma:
@@ -126,8 +144,10 @@ def leaf_text(v, sg):
     x = sg.leaf(v)
     if c == "x":
         return ""
-    if c in ("i", "n", "g"):
+    if c in INT_CLASSES:
         return str(x)
+    if c == "d":
+        return "%" + base64.b64encode(x).decode()
     if c == "f":
         return fmt_float(x)
     if c == "b":
@@ -186,10 +206,16 @@ def built(v, sg):
     x = sg.leaf(v)
     if c == "x":
         return {"k": "extant"}
-    if c in ("i", "n"):
-        return {"k": "i32", "v": x}
-    if c == "g":
-        return {"k": "i64", "v": x}
+    if c in INT_CLASSES:
+        if -2 ** 31 <= x < 2 ** 31:
+            return {"k": "i32", "v": x}
+        if -2 ** 63 <= x < 2 ** 63:
+            return {"k": "i64", "v": x}
+        if 0 <= x < 2 ** 64:
+            return {"k": "u64", "v": x}
+        return {"k": "bigint" if x < 0 else "biguint", "v": str(x)}
+    if c == "d":
+        return {"k": "data", "v": list(x)}
     if c == "f":
         return {"k": "f64", "v": x}
     if c == "b":
@@ -210,8 +236,14 @@ class Schema:
             if p == "value":
                 return built(x, sg)
             v = sg.leaf(x)
+            if p.endswith("w"):
+                p = p[:-1]
             if p == "f64":
                 return float(v)
+            if p in ("bigint", "biguint"):
+                return str(v)
+            if p == "blob":
+                return list(v)
             return v
         if c == "opt":
             return None if x["k"] == "none" else self.ty(t["e"], x["v"][0], sg)
@@ -223,7 +255,7 @@ class Schema:
             out = {}
             for k, v in x["v"]:
                 kk = self.ty(t["key"], k, sg)
-                out[kk if isinstance(kk, str) else json.dumps(kk)] = self.ty(t["val"], v, sg)
+                out[kk if isinstance(kk, str) else json.dumps(kk, separators=(",", ":"))] = self.ty(t["val"], v, sg)
             return out
         if c == "named":
             return self.desc(self.t[t["n"]], x, sg)
@@ -264,8 +296,8 @@ def canon(j):
 
 def norm_model(j):
     """model json modulo integer kind and the order of slot-only bodies (HashMap iteration order)."""
-    if j["k"] in ("i32", "i64", "u32", "u64"):
-        return {"k": "int", "v": j["v"]}
+    if j["k"] in ("i32", "i64", "u32", "u64", "bigint", "biguint"):
+        return {"k": "int", "v": int(j["v"])}
     if j["k"] == "f64":
         return {"k": "f64", "v": float(j["v"])}
     if j["k"] != "rec":
@@ -278,18 +310,21 @@ def norm_model(j):
 
 # ----------------------------------------------------------------------------- step 1: generation by TLC
 
-def _keys(name):
-    s = open(os.path.join(core.SPECS, "FormDoc.tla")).read()
-    m = re.search(name + r" == \{(.*?)\}", s, re.S)
-    return re.findall(r'"([^"]+)"', m.group(1))
+_KEYS = {}
 
 
-def reuse_keys():
-    return _keys("ReuseKeys")
-
-
-def all_keys():
-    return _keys("AllKeys") + reuse_keys()
+def model_keys(wd):
+    """the battery (AllKeys) and its parts, asked from the model itself (a TLC run without any type)"""
+    if not _KEYS:
+        res, errs = {}, []
+        run_gen(wd, dict(name="keys", keys=[], scope=0, max_mut=0, mut_depth=0, frames=1), res, errs)
+        if errs:
+            raise errs[0]
+        _KEYS["all"] = sorted(json.loads(res["keys"].tagged["SCHEMA"][0]).keys())
+        _KEYS["pos"] = [k for k in _KEYS["all"] if "_" in k]
+        s = open(os.path.join(core.SPECS, "FormDoc.tla")).read()
+        _KEYS["reuse"] = re.findall(r'"([^"]+)"', re.search(r"ReuseKeys == \{(.*?)\}", s, re.S).group(1))
+    return _KEYS
 
 
 GEN_INVS = ["WellFormed", "ReadInvertsRender", "WrongTagRejected", "Emit"]
@@ -688,8 +723,8 @@ def run(tier, out):
     wd = core.workdir(PROP)
     core.build_harness(MEMBER, BIN)
     seed = core.seed()
-    keys = all_keys()
-    jobs = plan(tier, keys)
+    mk = model_keys(wd)
+    jobs = plan(tier, mk)
     res, errs = {}, []
     table = Table(wd)
     seen = set()
@@ -833,7 +868,7 @@ def report(out, tier, jobs, table, failed, tot, cov, gst, wd):
                  "concretised from seeded boundary pools and rendered in up to %d Recon styles; one evaluation = one row of observations of the real "
                  "code on which TLC evaluates the laws.  distinct_nontrivial = distinct typed instances + distinct (type, text) pairs that parse as a model "
                  "value (so that both reading paths really ran), counted by hashing" % len(ALL_STYLES),
-            battery_types=len(all_keys()), documents=gst["documents"],
+            battery_types=len(model_keys(wd)["all"]), documents=gst["documents"],
             gen_jobs=[{kk: (list(v) if isinstance(v, tuple) else v) for kk, v in j.items()} for j in jobs],
             gen_states=gst["states"], gen_transitions=gst["generated"], gen_wall_s=round(gst["wall"], 1),
             law_states=tot["states"], law_transitions=tot["transitions"], law_wall_s=round(tot["wall"], 1),
